@@ -260,9 +260,6 @@ def check(chk, repo, tier):
         elif isinstance(n, ast.Call) and dotted(n.func) in (
                 "int", "float", "round", "str.strip", "eval"):
             bad = f"{dotted(n.func)}(...)"
-        elif isinstance(n, ast.Subscript) and isinstance(
-                n.slice, ast.Slice) and isinstance(n.ctx, ast.Load):
-            bad = f"slice {ast.unparse(n)[:30]}"
         if bad:
             chk.ob("C05.text-unmodified",
                    f"transpile_token/NUMBER:{bad}", False,
